@@ -44,7 +44,8 @@ ASSUMPTIONS = [
     "Arrow min/max/is_nan kernels are modelled by vf/rigs/arrowshim.py and compared with real pyarrow on a boundary grid every run",
     "json and fastavro (C codecs) are replaced by token codecs under the solver; their scalar fidelity is checked only on the concrete grid",
     "NaN inside an IN / NOT IN literal list is excluded (SQL leaves it unspecified; Arrow is_in treats NaN = NaN)",
-    "literal type equals the column type (mixed int/float literals make pyarrow itself raise on the unpruned read)",
+    "in the symbolic part the literal type equals the column type; literals of another type (datetime on a date column, float on a long "
+    "column ...) only on the concrete grids, and only where pyarrow itself accepts them on the unpruned read",
     "Parquet row-group pruning inside pyarrow is not examined",
 ]
 TRUSTED = ["CrossHair 0.0.110", "z3 5.1", "vf.rigs.arrowshim (validated each run)", "CPython json / fastavro on scalars"]
@@ -363,6 +364,18 @@ def e2e_grid(kind="float"):
     grids = {
         "float": ("double", [[NAN, 0.5], [0.5, 0.5], [None, 1.0, 2.0], [NAN], [-INF, INF], [None, None], [NAN, 7.0, 9.0]],
                   [0.5, 1.0, 3.0, -INF, 8.0]),
+        # ONE append larger than the writer's 1000-record chunk, the NaN in the middle chunk: the file's bounds are the FILE's
+        "bigfile": ("double", [[(i % 10) / 10.0 for i in range(1000)] + [NAN if i == 500 else 2000.0 + i for i in range(1000)] + [0.5] * 100,
+                               [0.5] * 1000 + [NAN if i == 700 else 0.5 for i in range(1000)] + [0.5] * 100,
+                               [float(i) for i in range(1000)] + [5000.0 + i for i in range(1000)] + [-7.0]],
+                    [0.5, 2500.0, 5500.0, -7.0]),
+        # literal of ANOTHER type than the column (where pyarrow itself accepts the comparison on the unpruned read)
+        "mixed_date": ("date", [[date(2024, 1, 3), date(2024, 1, 5)], [date(2024, 1, 3)], [None, date(2023, 12, 31)]],
+                       [datetime(2024, 1, 3, 12, 0, 0), datetime(2024, 1, 3, 0, 0, 0), datetime(2024, 1, 5, 23, 59, 59), datetime(2023, 12, 31, 0, 0, 1)]),
+        "mixed_ts": ("timestamp", [[datetime(2024, 1, 3, 0, 0, 0), datetime(2024, 1, 3, 12, 0, 0)], [datetime(2024, 1, 2, 23, 59, 59, 999999), None]],
+                     [date(2024, 1, 3), date(2024, 1, 4), date(2024, 1, 2)]),
+        "mixed_int": ("long", [[1, 1], [2, 3], [None, 2 ** 53 + 1], [-5, 5]], [1.0, 1.5, 2.5, float(2 ** 53), -5.0, True]),
+        "mixed_float": ("double", [[1.0, 1.0], [1.5, 2.5], [NAN, 3.0], [float(2 ** 53), None]], [1, 2, 3, 2 ** 53, 2 ** 53 + 1, False]),
         "int": ("long", [[1, 1], [None, 2 ** 53 + 1, 2 ** 53], [-5, 5], [None]], [1, 2 ** 53, 2 ** 53 + 1, 0]),
         "str": ("string", [["10", "9"], ["a", None], ["é", "z"], [""], ["u" * 40 + "a", "u" * 40 + "z"], ["u" * 17, "u" * 33]],
                 ["9", "10", "a", "", "z", "u" * 40 + "m", "u" * 40 + "z", "u" * 20]),
@@ -485,6 +498,7 @@ def obligations(tier):
                   bounds="timestamp bound with symbolic microsecond (0..999999) and second: decode(encode(v)) == v (real json); "
                          "verdict if CrossHair's datetime model finishes, else bug-hunting only", weight=3))
     kinds = ["float", "int", "str", "timestamp"] if tier == "quick" else ["float", "int", "str", "float32", "date", "timestamp", "bool"]
+    kinds += ["bigfile", "mixed_date", "mixed_ts", "mixed_int", "mixed_float"]
     for kind in kinds:
         obs.append(Ob(f"e2e.grid_{kind}", "vf.props.c13:e2e_grid", {"kind": kind}, engine="native", timeout=300,
                       bounds=f"concrete boundary grid, {kind} column, all operators, real pyarrow/json/fastavro/local backend",
